@@ -356,6 +356,24 @@ impl StreamOracle {
     }
 }
 
+/// Spec node of a long input laid out as sixteen aligned subtrees of `sub` bytes (a power of two)
+/// followed by a tail of 1..=sub bytes - so that the root's left child is the complete 16*sub
+/// subtree. The sixteen subtree chaining values are computed on threads by the recursive
+/// definition (`node`) and merged pairwise: the same tree, evaluated in parallel. Checked against
+/// `node` itself at a small scale by `self_check`.
+pub fn node_parallel16(mode: &Mode, data: &[u8], sub: usize) -> Node {
+    assert!(sub.is_power_of_two() && sub >= 1024 && data.len() > 16 * sub && data.len() - 16 * sub <= sub);
+    let mut cvs: Vec<[u8; 32]> = std::thread::scope(|s| {
+        let hs: Vec<_> = (0..16).map(|i| s.spawn(move || node(mode, &data[i * sub..(i + 1) * sub], (i * sub / 1024) as u64).chaining_value())).collect();
+        hs.into_iter().map(|h| h.join().expect("spec thread")).collect()
+    });
+    while cvs.len() > 1 {
+        cvs = cvs.chunks(2).map(|p| parent_node(mode, &p[0], &p[1]).chaining_value()).collect();
+    }
+    let right = node(mode, &data[16 * sub..], (16 * sub / 1024) as u64).chaining_value();
+    parent_node(mode, &cvs[0], &right)
+}
+
 /// Self-anchoring against constants that come from outside the repository.
 /// Returns Err(description) on any mismatch.
 pub fn self_check() -> Result<(), String> {
@@ -383,6 +401,13 @@ pub fn self_check() -> Result<(), String> {
     }
     if seen.iter().any(|s| !s) {
         return Err("message permutation is not a permutation".into());
+    }
+    // the parallel evaluation of the tree is the same function as the recursive definition
+    let data: Vec<u8> = (0..16 * 4096 + 2000).map(|i| (i % 251) as u8).collect();
+    for m in [Mode::hash(), Mode::keyed(&[7u8; 32])] {
+        if node_parallel16(&m, &data, 4096) != node(&m, &data, 0) {
+            return Err("node_parallel16 differs from node".into());
+        }
     }
     Ok(())
 }
